@@ -2,6 +2,7 @@ import Iavl.Model.Merge
 import Iavl.Lemmas.Refine
 import Iavl.Generated.FactsOk
 import Iavl.Lemmas.FastIndexCorrect
+import Iavl.Lemmas.IndexMachineReads
 /-
   C07 — fast index coherence. What is proved: the merge of persisted index and uncommitted overlay
   (`UnsavedFastIterator`) yields exactly the overlaid state; the answers the index must give are those
@@ -43,6 +44,76 @@ theorem index_overlay_coherent (ops : List (FOp K V)) :
 example : let s := ([.set 1 10, .set 2 20, .save, .remove 1, .set 3 30] : List (FOp Nat Nat)).foldl FMach.step FMach.init
     s.fs.index = [(1, 10), (2, 20)] ∧ s.fs.adds = [(3, 30)] ∧ s.fs.rems = [1] ∧ s.working = [(2, 20), (3, 30)] := by decide
 end overlay
+
+section machine
+variable {K V : Type} [Ord K] [TransOrd K] [LawfulEqOrd K] [DecidableEq K]
+
+/-- **every answer served through the index equals the tree walk, in every history.** `IxSt`
+    (Model/IndexMachine.lean) is the index as a machine over whole histories: persisted entries with their
+    "version last updated", the label, the per-object overlay, the rebuild decision of
+    `enableFastStorageAndCommitIfNotEnabled`, the version guards of `ImmutableTree.Get` and `GetVersioned`,
+    `IsFastCacheEnabled`; each (re)open chooses independently whether the object maintains the index (`Bool`
+    beside each operation), which version to load, and the initial version. For every history from an empty
+    store whose steps meet the side conditions `IxOk` (those of C14, no hash collision on an identical
+    re-commit, a maintaining object commits only when positioned on a retained version), in the state
+    reached:
+    * `MutableTree.Get` = the lookup in the working contents and `MutableTree.Iterator` yields the working
+      contents (object positioned on a retained version, or never loaded on an empty store);
+    * `GetVersioned` and `GetImmutable(v).Get` = the lookup in the contents of `v`, for every retained `v`
+      (object loaded, or the store empty).
+    The right-hand sides are the answers of the tree walk by C01 (`history_refines`, `read_any_tree`). -/
+theorem indexed_reads_equal_walk_in_every_history (iv : Option Nat) (mode : Bool) (ops : List (Bool × Op K V))
+    (hok : IxRunOk (IxSt.init iv mode : IxSt K V) ops) :
+    let s := (IxSt.init iv mode : IxSt K V).run ops
+    (Positioned s → ∀ k, s.get k = lookup k s.vs.working) ∧
+    (Positioned s → s.iterate = s.vs.working) ∧
+    (Ready s → ∀ k ver, s.getVersioned k ver = (findVer s.vs.versions ver).bind (fun c => lookup k c)) ∧
+    (Ready s → ∀ b c, (b, c) ∈ s.vs.versions → ∀ k, s.immGet b c k = lookup k c) := by
+  have h := run_iinv _ (iinv_init iv mode) ops hok
+  refine ⟨fun hp k => ix_get_eq _ h hp k, fun hp => ix_iterate_eq _ h hp,
+    fun hr k ver => ix_getVersioned_eq _ h hr k ver, ?_⟩
+  intro hr b c hm k
+  refine immGet_retained _ h ?_ b c hm k
+  intro hfast
+  rcases hr hfast with hb | he
+  · exact h.fastLabel hfast hb
+  · rw [he] at hm; cases hm
+
+/-- **after any commit or open the persistent index describes exactly the latest version**: in every state
+    reached, whenever the tree object maintains the index and has been loaded or has committed (`base ≠ 0`),
+    the label names the latest version and the persisted entries are exactly its contents; and whoever
+    opened the store, a label that names the latest version is never wrong about the entries. -/
+theorem index_describes_latest_in_every_history (iv : Option Nat) (mode : Bool) (ops : List (Bool × Op K V))
+    (hok : IxRunOk (IxSt.init iv mode : IxSt K V) ops) :
+    let s := (IxSt.init iv mode : IxSt K V).run ops
+    (s.fast = true → s.vs.base ≠ 0 →
+      s.label = some (latestVer s.vs.versions) ∧ proj s.index = latestCV s.vs.versions) ∧
+    (s.label = some (latestVer s.vs.versions) → proj s.index = latestCV s.vs.versions) := by
+  have h := run_iinv _ (iinv_init iv mode) ops hok
+  exact ⟨fun hf hb => ⟨h.fastLabel hf hb, index_is_latest _ h (h.fastLabel hf hb)⟩, fun hl => index_is_latest _ h hl⟩
+
+theorem none_case {α : Type} {o : Option α} (h : o = none) (P : α → Prop) : ∀ c, o = some c → P c := by
+  intro c hc; rw [h] at hc; cases hc
+
+/-- non-vacuity: commits with the index, a reopen without it and a commit that leaves the index behind, a
+    reopen with it (rebuild), a rollback; the side conditions hold and the outcome is the expected one -/
+def exampleOps : List (Bool × Op Nat Nat) :=
+  [(true, .set 1 10), (true, .save true), (true, .set 2 20), (true, .remove 1), (true, .save true),
+   (false, .reopen none 0), (false, .set 3 30), (false, .save true),
+   (true, .reopen none 0), (true, .set 4 40), (true, .loadow 2), (true, .set 5 50)]
+
+example : IxRunOk (IxSt.init none true : IxSt Nat Nat) exampleOps := by
+  simp only [exampleOps, IxRunOk, IxOk, OpOk, and_true, true_and]
+  exact ⟨⟨by decide, fun _ => none_case (by decide) _, fun _ => Or.inr ⟨by decide, by decide, Or.inr (by decide)⟩⟩,
+    ⟨by decide, fun _ => none_case (by decide) _, fun _ => Or.inl ⟨[(1, 10)], by decide⟩⟩,
+    ⟨by decide, fun _ => none_case (by decide) _, fun h => absurd h (by decide)⟩⟩
+
+example :
+    let s := (IxSt.init none true : IxSt Nat Nat).run exampleOps
+    s.label = some 2 ∧ s.index = [(2, (20, 2))] ∧ s.adds = [(5, (50, 3))] ∧ s.get 5 = some 50 ∧ s.get 3 = none ∧
+      s.vs.working = [(2, 20), (5, 50)] ∧ s.fastEnabled = true := by decide
+
+end machine
 
 theorem label_constants :
     Facts.storageVersionKey = "storage_version" ∧ Facts.fastStorageVersionDelimiter = "-" ∧
